@@ -126,6 +126,12 @@ func (e *Exec) execCall2(in ssa.Instruction, c *ssa.CallCommon) Val {
 		return e.havocCall(name, nil, c, args, sig)
 	}
 	if callee == nil {
+		// calling a hash constructor value (func() hash.Hash)
+		if sig.Params().Len() == 0 && sig.Results().Len() == 1 && shortName(types.TypeString(sig.Results().At(0).Type(), nil)) == "hash.Hash" {
+			if ft, ok := e.val(c.Value).(*Term); ok {
+				return e.newHash(App("hashsize", BV(64), ft))
+			}
+		}
 		return e.havocCall("dynamic call", nil, c, args, sig)
 	}
 	return e.callStatic(callee, args, sig, in, c)
@@ -196,7 +202,8 @@ func (e *Exec) canInline(f *ssa.Function) bool {
 func (e *Exec) inlineCall(callee *ssa.Function, args []Val, bindings []Val, in ssa.Instruction) Val {
 	sub := &Exec{P: e.P, vc: e.vc, fn: callee, root: e.root, depth: e.depth + 1, opts: e.opts,
 		regs: map[ssa.Value]Val{}, guard: map[*ssa.BasicBlock]*Term{}, out: map[*ssa.BasicBlock]*State{},
-		brCond: map[*ssa.BasicBlock]*Term{}, st: e.st, g: e.g, silent: e.silent, st0: e.st0, tagFacts: e.tagFacts}
+		brCond: map[*ssa.BasicBlock]*Term{}, st: e.st, g: e.g, silent: e.silent, st0: e.st0, tagFacts: e.tagFacts,
+		onAcquire: e.onAcquire, onAccess: e.onAccess, allocOn: e.allocOn, inSize: e.inSize}
 	sub.inlineStack = append(append([]*ssa.Function(nil), e.inlineStack...), e.fn)
 	if len(e.inlineStack) == 0 {
 		sub.inlineStack = []*ssa.Function{e.fn}
@@ -250,36 +257,152 @@ func (e *Exec) dummyResult(sig *types.Signature) Val {
 // ---------- havoc ----------
 
 func (e *Exec) havocCall(name string, callee *ssa.Function, c *ssa.CallCommon, args []Val, sig *types.Signature) Val {
-	mods := map[string]string{}
-	if c != nil {
-		func() {
-			defer func() {
-				if r := recover(); r != nil {
-					if _, ok := r.(unsupportedErr); !ok {
-						panic(r)
+	external := callee == nil || !inRepo(callee)
+	if external && c != nil {
+		e.vc.Note("external, results arbitrary: %s", name)
+		e.externalEffects(name, callee, c, args)
+	} else {
+		mods := map[string]string{}
+		if c != nil {
+			func() {
+				defer func() {
+					if r := recover(); r != nil {
+						if _, ok := r.(unsupportedErr); !ok {
+							panic(r)
+						}
 					}
-				}
+				}()
+				e.P.callMods(c, mods)
 			}()
-			e.P.callMods(c, mods)
-		}()
-	} else if callee != nil {
-		for k, v := range e.P.ModSet(callee) {
-			mods[k] = v
+		} else if callee != nil {
+			for k, v := range e.P.ModSet(callee) {
+				mods[k] = v
+			}
 		}
+		e.vc.Note("havocked (no contract): %s", name)
+		e.havocHeaps(mods)
+		e.havocPtrArgs(args, mods)
 	}
-	kind := "havocked (no contract)"
-	if callee != nil && !inRepo(callee) || callee == nil {
-		kind = "external, results arbitrary"
-	}
-	e.vc.Note("%s: %s", kind, name)
-	e.havocHeaps(mods)
-	e.havocPtrArgs(args, mods)
 	vals := make([]Val, sig.Results().Len())
 	for i := range vals {
 		vals[i] = e.havocVal("r", sig.Results().At(i).Type(), nil)
 	}
 	return resultVal(vals, sig)
 }
+
+// externalEffects: an external function may write the pointees of its pointer arguments (also when passed
+// through an interface), the elements of its slice arguments and the entries of its map arguments; anything
+// deeper that it writes is freshly allocated or private to the library object (assumption, listed).
+func (e *Exec) externalEffects(name string, callee *ssa.Function, c *ssa.CallCommon, args []Val) {
+	var idxs []int
+	all := true
+	if callee != nil {
+		if ix, ok := mutatingExternals[fnName(callee)]; ok {
+			idxs, all = ix, false
+		} else if isPureExternal(callee) {
+			idxs, all = nil, false
+		}
+	}
+	// ssa values of the arguments (receiver of an invoke first)
+	var svals []ssa.Value
+	if c.IsInvoke() {
+		svals = append(svals, c.Value)
+	}
+	svals = append(svals, c.Args...)
+	if all {
+		for i := range args {
+			idxs = append(idxs, i)
+		}
+	}
+	wrote := false
+	for _, i := range idxs {
+		if i >= len(args) || i >= len(svals) {
+			continue
+		}
+		if e.havocReach1(args[i], svals[i]) {
+			wrote = true
+		}
+	}
+	if wrote || all {
+		nac := e.vc.Fresh("ac", SInt)
+		e.vc.Assume(True, IntLe(e.st.ac, nac))
+		e.st.ac = nac
+	}
+	e.vc.Trusted["externals write only the pointees / elements / entries of their arguments (deeper writes are to fresh or library-private memory)"] = true
+}
+
+func (e *Exec) havocReach1(v Val, sv ssa.Value) bool {
+	s := e.silent
+	e.silent = true
+	defer func() { e.silent = s }()
+	switch x := v.(type) {
+	case *Ptr:
+		if x.Kind == PHeap && x.Ref != nil && x.Ref.IsLit() && x.Ref.Lit.Sign() == 0 {
+			return false
+		}
+		if _, isSig := types.Unalias(x.Typ).Underlying().(*types.Signature); isSig {
+			return false
+		}
+		np := *x
+		np.NonNil = true
+		if x.Kind == PHeap && !x.NonNil {
+			// possibly nil: conditional
+			cur := e.toTerm(e.quietLoad(&np), x.Typ)
+			nv := e.toTerm(e.havocVal("hv", x.Typ, nil), x.Typ)
+			e.store(&np, e.fromTerm(Ite(Neq(x.Ref, IntLit(0)), nv, cur), x.Typ, false))
+			return true
+		}
+		e.store(&np, e.havocVal("hv", x.Typ, nil))
+		return true
+	case *Term:
+		switch tt := types.Unalias(sv.Type()).Underlying().(type) {
+		case *types.Slice:
+			old := e.backing(x, tt.Elem())
+			na := e.vc.Fresh("hv", old.Sort)
+			k := Sym("k", BV(64))
+			inR := And(SGe(k, SlOff(x)), SLt(k, BVAdd(SlOff(x), SlCap(x))))
+			e.vc.Assume(True, Forall([][2]string{{"k", BV(64)}}, Implies(Not(inR), Eq(Select(na, k), Select(old, k))), Select(na, k)))
+			e.setBackingIf(Neq(SlRef(x), IntLit(0)), SlRef(x), tt.Elem(), na)
+			return true
+		case *types.Map:
+			mp, mv := mapHeapNames(tt)
+			ps := ArraySort(SInt, ArraySort(sortOf(tt.Key()), SBool))
+			vs := ArraySort(SInt, ArraySort(sortOf(tt.Key()), sortOf(tt.Elem())))
+			hp, hv := e.heapGet(mp, ps), e.heapGet(mv, vs)
+			e.heapSet(mp, Ite(Neq(x, IntLit(0)), Store(hp, x, e.vc.Fresh("hvp", ArraySort(sortOf(tt.Key()), SBool))), hp))
+			e.heapSet(mv, Ite(Neq(x, IntLit(0)), Store(hv, x, e.vc.Fresh("hvv", ArraySort(sortOf(tt.Key()), sortOf(tt.Elem())))), hv))
+			return true
+		case *types.Interface:
+			// pointer boxed into an interface: look through MakeInterface for the static pointee type
+			var inner types.Type
+			if mi, ok := sv.(*ssa.MakeInterface); ok {
+				inner = mi.X.Type()
+			} else if x.Op == "mk-iface" && x.Args[0].IsLit() {
+				inner = e.typeByID(x.Args[0].Lit.Int64())
+			}
+			if inner == nil {
+				return false
+			}
+			if pt, ok := types.Unalias(inner).Underlying().(*types.Pointer); ok {
+				if _, isArr := types.Unalias(pt.Elem()).Underlying().(*types.Array); isArr {
+					return false
+				}
+				n, hs := objHeap(pt.Elem())
+				h := e.heapGet(n, hs)
+				nv := e.havocTerm("hv", pt.Elem())
+				e.heapSet(n, Ite(Neq(IfRef(x), IntLit(0)), Store(h, IfRef(x), nv), h))
+				return true
+			}
+			if sl, ok := types.Unalias(inner).Underlying().(*types.Slice); ok {
+				_ = sl
+			}
+		}
+	}
+	return false
+}
+
+// typeByID finds a pointer type by its interface tag among the types boxed so far (none kept: nil).
+func (e *Exec) typeByID(id int64) types.Type { return nil }
 
 // havocPtrArgs: a callee writing through *T parameters writes, for interior / local / global pointer
 // arguments, the location they denote (which lives in another heap than H.T).
@@ -415,8 +538,8 @@ func (e *Exec) lenOf(v Val, t types.Type) *Term {
 		mr := v.(*Term)
 		r := e.vc.Fresh("maplen", BV(64))
 		e.vc.Assume(True, And(SGe(r, bv64zero), SLe(r, maxLen)))
-		e.vc.Assume(True, Eq(r, App("maplen."+mangle(typeKey(u.Key())), BV(64), Select(e.heapGet(mp, ps), mr))))
 		e.declareRaw("(declare-fun maplen." + mangle(typeKey(u.Key())) + " (" + ArraySort(sortOf(u.Key()), SBool) + ") (_ BitVec 64))")
+		e.vc.Assume(True, Eq(r, App("maplen."+mangle(typeKey(u.Key())), BV(64), Select(e.heapGet(mp, ps), mr))))
 		return r
 	case *types.Chan:
 		return e.vc.Fresh("chanlen", BV(64))
@@ -503,7 +626,9 @@ func (e *Exec) execAppend(c *ssa.CallCommon) Val {
 	}
 	srcArr = e.vc.Define("src", srcArr)
 	newLen := e.vc.Define("nlen", BVAdd(SlLen(s), n))
-	e.check("makesize", SLe(newLen, maxLen), "append: length out of range")
+	// len+n <= 2^48 is the address-space assumption (two live slices cannot exceed it together), not an obligation
+	e.trust("address space: the result of append has length <= 2^48")
+	e.vc.Assume(e.g, SLe(newLen, maxLen))
 	fits := e.vc.Define("fits", SLe(newLen, SlCap(s)))
 	fresh := e.allocRef("app")
 	ncap := e.vc.Fresh("ncap", BV(64))
